@@ -253,9 +253,14 @@ impl Node {
     pub fn poll_at(&mut self, now_us: i64) -> Result<Option<i64>, Violation> {
         Self::set_clock(now_us);
         let (iface, sockets) = (&mut self.iface, &self.sockets);
-        guard("Interface::poll_at", || {
-            iface.poll_at(inst(now_us), sockets).map(|i| i.total_micros())
-        })
+        let at = guard("Interface::poll_at", || iface.poll_at(inst(now_us), sockets).map(|i| i.total_micros()))?;
+        // poll_delay is the same schedule seen from `now`: the distance to that instant, zero when it is not later
+        let delay = guard("Interface::poll_delay", || iface.poll_delay(inst(now_us), sockets).map(|d| d.total_micros() as i64))?;
+        let expect = at.map(|t| (t - now_us).max(0));
+        if delay != expect {
+            return Err(viol("C13", "poll_delay", "C13.poll_delay-disagrees-with-poll_at", format!("at t={}us poll_at returns {:?} but poll_delay returns {:?} (expected {:?})", now_us, at, delay, expect)));
+        }
+        Ok(at)
     }
 }
 
